@@ -62,27 +62,27 @@ IsModelMutation(mu) == mu.k # "SQL"      \* isinstance(mutation, BaseModelMutati
 OrigData(attrs) == IF Get(attrs, "null", FALSE) = TRUE THEN "orig-n" ELSE "orig-nn"
 Field(t, attrs) == [ftype |-> t, attrs |-> attrs, rel |-> None, data |-> OrigData(attrs)]
 FKField(target, attrs) == [ftype |-> "FK", attrs |-> attrs, rel |-> target, data |-> OrigData(attrs)]
-IdField == Field("Auto", [primary_key |-> TRUE])
+IdField == Field("Auto", D1("primary_key", TRUE))
 Model(name, fields, ut) == [table |-> TableOf(name), fields |-> fields,
                             ut |-> ut, uta |-> TRUE, idx |-> <<>>]
 
 Start(id) ==
   CASE id = 1 ->          \* two plain models
         [A |-> Model("A", [id |-> IdField,
-                           f |-> Field("Char", [max_length |-> 10]),
-                           g |-> Field("Int", [null |-> TRUE])], <<>>),
+                           f |-> Field("Char", D1("max_length", 10)),
+                           g |-> Field("Int", D1("null", TRUE))], <<>>),
          B |-> Model("B", [id |-> IdField,
                            f |-> Field("Int", EmptyDict)], <<>>)]
     [] id = 2 ->          \* unique_together present, B references A
         [A |-> Model("A", [id |-> IdField,
-                           f |-> Field("Char", [max_length |-> 10]),
+                           f |-> Field("Char", D1("max_length", 10)),
                            g |-> Field("Int", EmptyDict)], << <<"f", "g">> >>),
          B |-> Model("B", [id |-> IdField,
                            f |-> FKField("A", EmptyDict)], <<>>)]
     [] OTHER ->           \* one model only
         [A |-> Model("A", [id |-> IdField,
-                           f |-> Field("Char", [max_length |-> 10]),
-                           g |-> Field("Int", [null |-> TRUE])], <<>>)]
+                           f |-> Field("Char", D1("max_length", 10)),
+                           g |-> Field("Int", D1("null", TRUE))], <<>>)]
 
 Sig0 == Start(StartId)
 
@@ -91,18 +91,18 @@ FieldNames == {"f", "g", "h"}
 NameRank(n) == CASE n = "A" -> 1 [] n = "B" -> 2 [] n = "C" -> 3 [] OTHER -> 9
 
 FieldMutations(m, x) ==
-    { MAdd(m, x, "Int", [null |-> TRUE], None),
-      MAdd(m, x, "Char", [max_length |-> 10], "i"),
-      MChg(m, x, None, [null |-> TRUE], None),
-      MChg(m, x, None, [null |-> FALSE], "i"),
-      MChg(m, x, None, [max_length |-> 20], None),
-      MChg(m, x, None, [db_index |-> TRUE], None),
+    { MAdd(m, x, "Int", D1("null", TRUE), None),
+      MAdd(m, x, "Char", D1("max_length", 10), "i"),
+      MChg(m, x, None, D1("null", TRUE), None),
+      MChg(m, x, None, D1("null", FALSE), "i"),
+      MChg(m, x, None, D1("max_length", 20), None),
+      MChg(m, x, None, D1("db_index", TRUE), None),
       MDel(m, x) }
     \cup { MRenF(m, x, y) : y \in FieldNames \ {x} }
 
 TypeMutations(m, x) ==
     { MChg(m, x, "Text", EmptyDict, None),
-      MChg(m, x, "Char", [max_length |-> 20], None) }
+      MChg(m, x, "Char", D1("max_length", 20), None) }
 
 ModelMutations(m) ==
     { MMetaUT(m, << <<"f", "g">> >>), MMetaUT(m, <<>>),
@@ -120,7 +120,7 @@ Alphabet ==
         \cup { MMetaUT("A", << <<"f", "g">> >>), MMetaUT("A", <<>>), MSQL }
     [] AlphaId = 3 ->      \* relations: FK additions and model renames/deletes
         UNION { ModelMutations(m) : m \in ModelNames }
-        \cup { MAdd(m, "h", "FK", [null |-> TRUE, related_model |-> t], None)
+        \cup { MAdd(m, "h", "FK", D2("null", TRUE, "related_model", t), None)
                  : m \in {"A", "B"}, t \in ModelNames }
         \cup { MDel(m, x) : m \in {"A", "B"}, x \in {"f", "h"} }
         \cup { MRenF(m, "h", "g") : m \in {"B"} }
@@ -536,6 +536,9 @@ Extend(mu) ==
           /\ (mu.k = "DelM" => \A mn \in DOMAIN cur \ {mu.m} :
                                   \A fn \in DOMAIN cur[mn].fields :
                                      cur[mn].fields[fn].rel # mu.m)
+          \* unique_together only ever names fields the model has
+          /\ ((mu.k = "Meta" /\ mu.prop = "unique_together")
+                => \A i \in 1..Len(mu.val) : SeqSet(mu.val[i]) \subseteq DOMAIN cur[mu.m].fields)
           \* a relation is only ever added towards a model that exists
           /\ ((mu.k = "Add" /\ "related_model" \in DOMAIN mu.attrs)
                 => mu.attrs["related_model"] \in DOMAIN cur)
